@@ -131,3 +131,57 @@ func VH_C20_discovery() {
 	os.RemoveAll(tmp)
 	zz.Reach("end")
 }
+
+// VH_C20_nested: a chain root/d1/.../dk/file with symbolic directory and file
+// names: exclusion of `lib` and hidden directories has to hold at every depth,
+// which the general tree harness reaches only at its thorough bound.
+func VH_C20_nested() {
+	tmp, err := os.MkdirTemp("", "zzverif")
+	zz.Assume(err == nil)
+	root := filepath.Join(tmp, "hooks")
+	zz.Assume(os.Mkdir(root, 0o755) == nil)
+	depth := zz.Len("depth", 1, zz.Param("maxdepth", 3))
+	var es []vhEntry
+	p := root
+	for i := 0; i < depth; i++ {
+		si := strconv.Itoa(i)
+		e := vhEntry{parent: i - 1, isDir: true}
+		e.name = zz.OneOf("dname"+si, "sub", "lib", ".hid", "libx", "lib.d")
+		e.path = p + "/" + e.name
+		zz.Assume(os.Mkdir(e.path, 0o755) == nil)
+		p = e.path
+		es = append(es, e)
+	}
+	// one file in the deepest directory of the chain
+	nd := len(es)
+	for i := nd - 1; i < nd; i++ {
+		si := strconv.Itoa(i + 1)
+		e := vhEntry{parent: i}
+		e.name = zz.OneOf("fname"+si, "hook", "a.yaml", ".hid.sh", "lib.sh", "x.yaml.sh", "b.md")
+		e.mode = vhMode("fmode" + si)
+		pp := root
+		if i >= 0 {
+			pp = es[i].path
+		}
+		e.path = pp + "/" + e.name
+		zz.Assume(os.WriteFile(e.path, []byte("#!/bin/sh\n"), 0o644) == nil)
+		zz.Assume(os.Chmod(e.path, vhModes[e.mode]) == nil)
+		es = append(es, e)
+	}
+	got, err := RecursiveGetExecutablePaths(root)
+	zz.Assert(err == nil, "walk_succeeds")
+	want := 0
+	for i := range es {
+		h := VHIsHook(es, i)
+		want += zz.IteInt(h, 1, 0)
+		present := false
+		for _, g := range got {
+			present = zz.Or(present, g == es[i].path)
+		}
+		zz.Assert(zz.Implies(h, present), "executable_file_is_discovered_at_any_depth")
+		zz.Assert(zz.Implies(zz.Not(h), zz.Not(present)), "excluded_file_is_not_discovered_at_any_depth")
+	}
+	zz.Assert(len(got) == want, "each_hook_discovered_once")
+	os.RemoveAll(tmp)
+	zz.Reach("end")
+}
